@@ -11,11 +11,12 @@ THEOREMS = [
     "Mpir.PowmL.mpn_powm_correct",
     "Mpir.PowmL.mpz_powm_scratch_ok",
     "Mpir.PowmL.mpn_powm_correct_upto_cutoff",
+    "Mpir.PowmL.mpn_powlo_correct",
 ]
 TRUSTED = ["hand-written models lean/Mpir/Model/PowmLimb.lean: mpn_redc_n statement by statement on limb lists (mullow, "
            "mulmod_bnm1 residue, the subtraction that rebuilds the wrapped limbs, MPN_DECR_U, final subtraction / add-back); "
            "mpn_powm on memory (rp, the caller's tp, the table pp as a list of n-limb entries with the limb-range check "
-           "n*i + n <= n << (w-1)); tied by the ops mpn_redc_n_l, mpn_powm_m (exact) and mpn_powm_fp (result + measured footprint)"]
+           "n*i + n <= n << (w-1)); mpn_powlo on memory (tp of 3n limbs, pp with the spare n limbs, both halves of every mullow stored); tied by the ops mpn_redc_n_l, mpn_powm_m, mpn_powlo_m (exact) and mpn_powm_fp (result + measured footprint)"]
 ASSUMPTIONS = ["mpn_mulmod_bnm1 is replaced by 'some residue of x*m modulo B^rn - 1 in rn limbs, 0 for the product 0' (theorem: every "
                "such residue; executable model: the least one); mpn_mullow_n / mpn_mul_n / mpn_sqr / mpn_tdiv_qr (redcify) / mpn_binvert "
                "by their mathematical meaning (C01/C02; binvert: Powm.binvert_correct); mpn_binvert's use of tp is charged as "
@@ -23,7 +24,7 @@ ASSUMPTIONS = ["mpn_mulmod_bnm1 is replaced by 'some residue of x*m modulo B^rn 
                "redc_n theorems take n <= rn < 2n for rn = mpn_mulmod_bnm1_next_size(n) as hypotheses (mulmod_bnm1's ASSERT and "
                "redc_n's ASSERT_ALWAYS); rn = n for n <= 2*FFT_MULMOD_2EXPP1_CUTOFF",
                "mpn_redc_2 (built, but not selected by mpn_powm in this build: no native addmul_2, WANT_REDC_2 undefined) keeps its "
-               "limb-level model and differential run only; mpn_powlo and mpz_powm_ui keep the value-level theorems of c08_powm"]
+               "limb-level model and differential run only; mpz_powm_ui keeps the size-aware value-level theorem of c08_powm (powm_ui_spec)"]
 RULE = ("redc_n: n at +-2 of 9, of REDC_1_TO_REDC_N_THRESHOLD and of 2*FFT_MULMOD_2EXPP1_CUTOFF (rn > n beyond it); inputs built "
         "backwards from x and m: products whose limbs k..rn are all ones with a wrapped part that carries (borrow ripples through "
         "zero limbs), residue class of 0 (m | B^rn - 1), U = (m-1)B^n + B^n - 1, U = 0, U < B^n, moduli B^n - 1, B^n/2 + 1, all ones; "
@@ -158,12 +159,24 @@ def gen_powm(rng, tier, T):
                 yield line("mpn_powm_fp", b, e, m)
                 yield line("mpn_powm_m", b, e, m)
 
+def gen_powlo(rng, tier, T):
+    thor = tier == "thorough"
+    for n in list(range(1, 9)) + P.around([T["MULLOW_DC_THRESHOLD"], T["MUL_KARATSUBA_THRESHOLD"]], 1, 80):
+        for ecls in ("uniform", "runs", "ones", "onebit", "sparse"):
+            bits = rng.choice([2, 3, 7, 8, 25, 26, 64, 65, 81, 82, 130] + ([241, 242, 673, 674] if n <= 8 or thor else []))
+            e = P.exp_bits(rng, bits, ecls)
+            if rng.random() < 0.4: e <<= rng.randrange(1, 70)
+            if e < 2: e = 2
+            b = rand_limbs(rng, n + rng.choice([0, 0, 2]), rng.choice(["uniform", "ones", "runs", "lowbit", "sparse"]))
+            yield "mpn_powlo_m %s %s %x" % (vec(b), vec(limbs_of(e)), n)
+
 def gen_ops(rng, tier, ctx=None):
     T = thresholds(ctx)
     # the hand-checked ripple case of the Props file (n = 2 is below redc_n's domain; here its 10-limb analogue)
     for l in ripple_small(rng): yield l
     for l in gen_redc_n(rng, tier, T): yield l
     for l in gen_powm(rng, tier, T): yield l
+    for l in gen_powlo(rng, tier, T): yield l
 
 PINS = [("mpn/generic/redc_n.c", "mpn_redc_n"), ("mpn/generic/powm.c", "mpn_powm"), ("mpn/generic/powm.c", "redcify"),
-        ("mpn/generic/binvert.c", "mpn_binvert_itch"), ("gmp-impl.h", "mpn_mulmod_bnm1_next_size")]
+        ("mpn/generic/binvert.c", "mpn_binvert_itch"), ("mpn/generic/powlo.c", "mpn_powlo"), ("gmp-impl.h", "mpn_mulmod_bnm1_next_size")]
